@@ -332,6 +332,15 @@ def run_switch(spec, out):
     if spec.get("undefined_at") is not None:
         out.count("switch_runs_with_new_objective_undefined_at_an_old_iterate")
     if tr.exc is not None:
+        olde = np.seterr(all="ignore")
+        big = max([float(np.max(np.abs(np.asarray(v, dtype=float)))) for kd, _x, v in tr.evals if kd == "g" and np.size(v)] + [0.0])
+        np.seterr(**olde)
+        if not big < 1e100:
+            # the redefined objective is unbounded below on this (unbounded) domain and the run has followed it to gradients of 1e100 and
+            # more: g.g overflows in any implementation. A property of the workload's objective, not of the update mechanism (thorough
+            # sweep, seed 1: n=34, no bounds, indefinite term; |g| = 1e156 when scipy's finiteness check raised)
+            out.count("switch_runs_diverging_on_an_objective_unbounded_below")
+            return
         out.violate("switch_run_raised", f"{name}: {tr.exc!r}", exc=type(tr.exc).__name__, **tags)
         return
     if info["switched_at_call"] is None:
